@@ -2,7 +2,7 @@ import SaModel.Lemmas.C12Basic
 /-
 C12 helpers, part 3: slicing twice is slicing once (structurally), and slices of well-formed views are well-formed.
 -/
-namespace SaModel.Props.C12
+namespace SaModel.Lemmas.C12
 open SaModel SaModel.Read SaModel.Spec
 
 theorem mul_window_le' {o2 l2 l1 : Nat} (n : Nat) (h : o2 + l2 â‰¤ l1) : o2 * n + l2 * n â‰¤ l1 * n := by
@@ -105,4 +105,4 @@ theorem sliceableUFields_slice : âˆ€ (fs : ArrUFields) (len o l : Nat), o + l â‰
       sliceable_slice a o l hb hs.1.2, sliceableUFields_slice r len o l h hs.2, and_self]
 end
 
-end SaModel.Props.C12
+end SaModel.Lemmas.C12
